@@ -29,6 +29,9 @@ def main():
             patch = os.path.join(md, "patch.diff")
             if not os.path.exists(patch) or not k.startswith(only):
                 continue
+            if json.load(open(os.path.join(md, "meta.json"))).get("obsolete"):
+                print("%s/%s: skipped (obsolete: a later fix made the change harmless)" % (pid, k), flush=True)
+                continue
             rc, out = sh("git status --short", cwd=REPO)
             if out.strip():
                 print("ERROR: %s is not clean:\n" % REPO + out)
@@ -66,7 +69,7 @@ def main():
             verdict = "caught" + (" (no failing input)" if r.get("no_failing_input") else "") if r.get("check_exit") == 1 else "MISSED" if r.get("check_exit") == 0 else "error"
             print("%s/%s: %s; suite: %s; demo %s/%s" % (pid, k, verdict, r.get("suite"), r.get("demo_changed"), r.get("demo_clean")), flush=True)
     os.makedirs(os.path.join(ROOT, "out"), exist_ok=True)
-    with open(os.path.join(ROOT, "out", "seeded_results_seed%s.json" % os.environ.get("VERIF_SEED", "0")), "w") as f:
+    with open(os.path.join(ROOT, "out", "seeded_results_seed%s%s.json" % (os.environ.get("VERIF_SEED", "0"), os.environ.get("SEEDED_TAG", ""))), "w") as f:
         json.dump(res, f, indent=1)
     missed = [k for k, r in res.items() if r.get("check_exit") != 1]
     print("%d seeded changes, %d not caught" % (len(res), len(missed)))
